@@ -1,5 +1,156 @@
 import ZoektModel.Basic.Proto
+import ZoektModel.C07.Spec
 namespace ZoektModel.C07
-/-- stub: no model driver for C07 yet -/
-def main : IO Unit := ZoektModel.Proto.runLines (fun _ => ZoektModel.Proto.badCase "no model driver for C07")
+open ZoektModel ZoektModel.Proto
+
+def toB (l : List UInt8) : B := l.map (·.toNat)
+def ofB (b : B) : List UInt8 := b.map UInt8.ofNat
+def hexB (b : B) : String := bytesToHex (ofB b)
+def unhexB (s : String) : Option B := (hexToBytes? s).map toB
+
+def bit (b : Bool) : String := if b then "1" else "0"
+
+mutual
+/-- canonical rendering of a query tree, the same format the harness prints the Go value in -/
+def canon : Q → String
+  | .and cs => "(and" ++ canonList cs ++ ")"
+  | .or cs => "(or" ++ canonList cs ++ ")"
+  | .not c => "(not " ++ canon c ++ ")"
+  | .type t c => s!"(type {t} " ++ canon c ++ ")"
+  | .nil => "nil"
+  | .const v => if v then "T" else "F"
+  | .substr p cs f c _ => s!"(sub {hexB p} {bit cs}{bit f}{bit c})"
+  | .regexp r _ _ cs f c _ => s!"(re {hexB r} {bit cs}{bit f}{bit c})"
+  | .repo r => s!"(repo {hexB r})"
+  | .rawConfig n => s!"(rc {n})"
+  | .branch p => s!"(br {hexB p})"
+  | .lang n => s!"(lang {hexB n})"
+  | .sym e => "(sym " ++ canon e ++ ")"
+  | .metaQ f v => s!"(meta {hexB f} {hexB v})"
+  | .caseQ f => s!"(case {hexB f})"
+  | .orOp => "orOp"
+  | .caseScope c => "(scope " ++ canon c ++ ")"
+def canonList : List Q → String
+  | [] => ""
+  | q :: qs => " " ++ canon q ++ canonList qs
+end
+
+structure OEntry where
+  text : B
+  rq : RQ
+  compiles : Bool
+  lang : Option B
+
+def parseRQ (s : String) : Option RQ :=
+  if s == "e" then some .err
+  else if s.startsWith "l" then (unhexB (s.drop 1).toString).map .lit
+  else if s.startsWith "r" then
+    match (s.drop 1).toString.splitOn "." with
+    | [h, a, e] => do
+      let h ← unhexB h
+      let a ← bool? a
+      let e ← bool? e
+      pure (.re h a e)
+    | _ => none
+  else none
+
+def parseEntry (s : String) : Option OEntry :=
+  match s.splitOn "/" with
+  | [t, rq, cp, lg] => do
+    let t ← unhexB t
+    let rq ← parseRQ rq
+    let cp ← bool? cp
+    let lg ← if lg == "n" then some none
+             else if lg.startsWith "y" then (unhexB (lg.drop 1).toString).map some else none
+    pure ⟨t, rq, cp, lg⟩
+  | _ => none
+
+def parseOracleTable (s : String) : Option (List OEntry) :=
+  if s == "-" then some [] else (s.splitOn ",").mapM parseEntry
+
+/-- oracle from a table; `dflt` selects what a missing key answers (the driver runs the model with both
+    defaults: if the answers differ, the model consulted a key the harness did not supply) -/
+def mkOracle (tbl : List OEntry) (dflt : Bool) : Oracle :=
+  let find (t : B) := tbl.find? (fun e => e.text == t)
+  { rq := fun t => match find t with
+      | some e => e.rq
+      | none => if dflt then .lit [1] else .err
+    compiles := fun t => match find t with
+      | some e => e.compiles
+      | none => dflt
+    lang := fun t => match find t with
+      | some e => e.lang
+      | none => if dflt then some [1] else none }
+
+def renderTok (o : Outcome (Option Token)) : String :=
+  match o with
+  | .ok none => "nil"
+  | .ok (some t) => s!"ok {t.typ} {hexB t.text} {t.input.length}"
+  | .err _ => "err"
+  | .panic s => "panic:" ++ s
+  | .diverge => "diverge"
+
+def renderParse (O : Oracle) (s : B) : String × Obs :=
+  let obs := observe O s
+  match parse O s with
+  | .ok q => (s!"P=ok T={canon q} W={obs.proto} M={if obs.mtree == "err" then "ok" else obs.mtree}", obs)
+  | _ => (s!"P={obs.parse}", obs)
+
+/-- `P=… [T=… W=… M=…]` from the harness → observation -/
+def parseImplObs (s : String) : Option Obs :=
+  let fs := fields s
+  let get (k : String) : Option String :=
+    (fs.find? (·.startsWith k)).map fun f => (f.drop k.length).toString
+  match get "P=" with
+  | none => none
+  | some p =>
+    if p == "ok" then do
+      let w ← get "W="
+      let m ← get "M="
+      let st ← get "S="
+      pure { parse := p, str := st, proto := w, mtree := m }
+    else some { parse := p }
+
+def handle (line : String) : String :=
+  let (inp, impl) := splitCase line
+  match fields inp with
+  | ["tok", h] =>
+    match unhexB h with
+    | some b =>
+      let m := renderTok (nextToken b)
+      if impl.startsWith "panic" then specFail m ("tok:" ++ impl) else answer m
+    | none => badCase "hex"
+  | ["psl", h] =>
+    match unhexB h with
+    | some b =>
+      let m := match parseStringLiteral b with
+        | .ok (lit, n) => s!"ok {hexB lit} {n}"
+        | .err _ => "err" | .panic s => "panic:" ++ s | .diverge => "diverge"
+      if impl.startsWith "panic" then specFail m ("psl:" ++ impl) else answer m
+    | none => badCase "hex"
+  | ["parse", h, tbl] =>
+    match unhexB h, parseOracleTable tbl with
+    | some b, some tbl =>
+      let (m1, _) := renderParse (mkOracle tbl false) b
+      let (m2, _) := renderParse (mkOracle tbl true) b
+      if m1 != m2 then badCase "oracle table lacks a key the model consulted" else
+      -- the model prints S= only implicitly (always ok); the harness prints it
+      match parseImplObs impl with
+      | none => badCase "impl output"
+      | some iobs =>
+        let m := if m1.startsWith "P=ok" then m1 ++ " S=ok" else m1
+        if !checkP iobs then specFail m (failKey iobs) else answer m
+    | _, _ => badCase "fields"
+  | ["json", kind, h, tbl] =>
+    match unhexB h, parseOracleTable tbl with
+    | some b, some tbl =>
+      let isSearch := kind == "search"
+      let m1 := jsonStatus (mkOracle tbl false) isSearch b
+      let m2 := jsonStatus (mkOracle tbl true) isSearch b
+      if m1 != m2 then badCase "oracle table lacks a key the model consulted" else
+      if impl == "400" || impl == "run" then answer m1 else specFail m1 ("json:" ++ impl)
+    | _, _ => badCase "fields"
+  | _ => badCase "op"
+
+def main : IO Unit := runLines handle
 end ZoektModel.C07
